@@ -103,15 +103,22 @@ class Table(object):
         `state` with no live connection (regimes none / stale)."""
         m = self.model
         rows = self.rows.setdefault(('TCP_UP', state), [])
-        for reg in ('none',):
+        for reg in ('none', 'live'):
+            ev = 'TCP_UP' if reg == 'none' else 'TCP_UP2'
+            rows = self.rows.setdefault((ev, state), [])
             for poid0, st in self._setup(state, reg):
                 st.actions = []
                 for poid, s in m.new_protocol(st):
+                    if poid0 is not None:
+                        tr = s.heap[poid].fields.get('transport')
+                        if tr is not None and hasattr(tr, 'oid'):
+                            s.heap[tr.oid].fields['connected'] = Const(True)
                     for k, v, s2 in m.run_method(s, poid, 'connectionMade'):
                         r = Row(m, k, v, s2, poid)
-                        r.event = 'TCP_UP'
+                        r.event = ev
                         r.pre = state
                         r.regime = reg
+                        r.old_poid = poid0
                         rows.append(r)
 
     def get(self, event, state):
